@@ -31,6 +31,9 @@ type Snap struct {
 	Loaded    bool
 	Weight    uint64
 	Malformed []string // anomalies found while converting the raw snapshot (each is a C09/C03 concern)
+	// Dup: vertices found both in the live graph and in the vertices storage. They are NOT in Stored: a vertex that
+	// is still live has not left the graph, whatever the storage holds (an interrupted truncation leaves such copies)
+	Dup map[H]bool
 }
 
 func toH(s string) (H, bool) {
@@ -99,6 +102,16 @@ func TakeSnap(b *accountant.AccountingBook) (*Snap, error) {
 			s.Malformed = append(s.Malformed, fmt.Sprintf("storage key %s holds vertex with hash %s", Hex(k), Hex(st.Vertex.Hash)))
 		}
 		v := st.Vertex
+		if _, live := s.Live[k]; live {
+			if s.Dup == nil {
+				s.Dup = map[H]bool{}
+			}
+			s.Dup[k] = true
+			if Fingerprint(&v) != Fingerprint(&s.Live[k].V) {
+				s.Malformed = append(s.Malformed, fmt.Sprintf("vertex %s is held live and in the storage with different content", Hex(k)))
+			}
+			continue
+		}
 		s.Stored[k] = &v
 	}
 	for k, v := range raw.Index {
